@@ -726,5 +726,40 @@ theorem refDec_monitor_accepts_model (v : JVal) : refDecMonitor (modelRefDec v) 
       | ok _ => rfl
     simp [refDecMonitor, hc, hw, sameJ_refl]
 
+/-! ## what a retried request carries -/
+
+def modelRetry (rs : List (Bytes × JVal)) (state : Bytes) : RetryObs :=
+  { sentResp := lookup retry_InputResponses_name (retryParams [] rs state),
+    sentState := lookup retry_RequestState_name (retryParams [] rs state),
+    back := match decodeRetry (retryParams [] rs state) with | .ok r => some r | .error _ => none }
+
+theorem containsPair (ks : List (Bytes × RespKind)) (x : Bytes × RespKind) (h : x ∈ ks) : ks.contains x = true := by
+  simp [h]
+
+theorem retry_monitor_accepts_model (rs : List (Bytes × JVal)) (state : Bytes) :
+    retryMonitor rs state (modelRetry rs state) = none := by
+  obtain ⟨e1, e2⟩ := L.retry_members [] rs state rfl rfl
+  have r1 : respIntact rs (modelRetry rs state) = true := by
+    simp only [respIntact, modelRetry, e1]
+    by_cases hr : rs = [] <;> simp [hr, sameJ_refl]
+  have r2 : stateIntact state (modelRetry rs state) = true := by
+    simp only [stateIntact, modelRetry, e2]
+    by_cases hs : state = [] <;> simp [hs]
+  have r3 : backAlike rs state (modelRetry rs state) = true := by
+    unfold backAlike
+    by_cases hd : allDiscriminated rs = true
+    · have hk : ∀ p ∈ rs, respKindOf p.2 = .ok (kindD p.2) := by
+        intro p hp
+        have := List.all_eq_true.mp hd p hp
+        unfold kindD
+        cases h : respKindOf p.2 <;> simp_all
+      have hb := (L.retry_roundtrip [] rs state kindD rfl rfl hk).2.2
+      simp only [modelRetry, hb, hd, Bool.not_true, Bool.false_or, beq_self_eq_true, List.length_map, Bool.true_and]
+      rw [List.all_eq_true]
+      intro p hp
+      exact containsPair _ _ (List.mem_map.mpr ⟨p, hp, rfl⟩)
+    · simp [hd]
+  simp [retryMonitor, r1, r2, r3]
+
 end Mon
 end Wire
